@@ -23,7 +23,10 @@ struct Conf {
   double T;
   bool step_zero;
   bool grid_block;   // the grid is given by a grid { } block of the bias; the variables' own boundaries and widths differ from it
+  bool no_integrate; // integrate off: no on-the-fly integrator object exists
+  bool scaled;       // scaledBiasingForce with factors 0.5 (bins 0,1) and 2.0 (bins 2,3) read from a file; 1 outside the grid
 };
+static double scale_factor(Conf const &c, int bin) { return (!c.scaled || bin < 0) ? 1.0 : (bin < 2 ? 0.5 : 2.0); }
 
 static std::string conf_text(Conf const &c, std::string const &input_prefix = "")
 {
@@ -40,6 +43,8 @@ static std::string conf_text(Conf const &c, std::string const &input_prefix = ""
   if (!c.apply) s += " applyBias off\n";
   if (c.max_force > 0) s += " maxForce " + num(c.max_force) + (c.nd == 2 ? " " + num(c.max_force) : "") + "\n";
   if (c.step_zero) s += " stepZeroData on\n";
+  if (c.no_integrate) s += " integrate off\n";
+  if (c.scaled) s += " scaledBiasingForce on\n scaledBiasingForceFactorsGrid c04_factors.dat\n";
   if (input_prefix.size()) s += " inputPrefix " + input_prefix + "\n";
   if (c.grid_block) s += std::string(" grid {\n lowerBoundary 1.0") + (c.nd == 2 ? " 1.0" : "") + "\n upperBoundary 3.0" + (c.nd == 2 ? " 2.0" : "") +
                          "\n width 0.5" + (c.nd == 2 ? " 0.5" : "") + "\n }\n";
@@ -193,7 +198,17 @@ int main(int argc, char **argv)
       {"1d-grid-block", 1, false, 0, 1, true, 0, 0, 0, false, true},
       {"1d-grid-block-ramp-1-3-plus-harmonic", 1, false, 1, 3, true, 0, 1, 0, false, true},
       {"2d-grid-block", 2, false, 0, 2, true, 0, 0, 0, false, true},
+      {"1d-integrate-off", 1, false, 0, 1, true, 0, 0, 0, false, false, true},
+      {"1d-scaledBiasingForce", 1, false, 0, 1, true, 0, 0, 0, false, false, false, true},
+      {"1d-scaledBiasingForce-ramp-1-3", 1, false, 1, 3, true, 0, 0, 0, false, false, false, true},
   };
+  {
+    // factors of scaledBiasingForce on the grid of d ([1,3], width 0.5), multicolumn format
+    FILE *ff = fopen("c04_factors.dat", "w");
+    if (!ff) { perror("c04_factors.dat"); return 2; }
+    fprintf(ff, "# 1\n# 1.0 0.5 4 0\n\n 1.25 0.5\n 1.75 0.5\n 2.25 2.0\n 2.75 2.0\n");
+    fclose(ff);
+  }
   long nw = 1;
   for (int i = 0; i < L; i++) nw *= 10;
   std::string only = args.kv.count("only") ? args.kv["only"] : "";
@@ -333,7 +348,7 @@ int main(int argc, char **argv)
                 }
                 // what the engine receives: ABF force (+ harmonic) on atom 2 along x
                 if (!failed) {
-                  double fx = fb[0] + (c.harmonic ? -0.6 * (REG[word[s].reg] - 1.4) / 0.25 : 0.0);
+                  double fx = scale_factor(c, bin_now) * fb[0] + (c.harmonic ? -0.6 * (REG[word[s].reg] - 1.4) / 0.25 : 0.0);
                   if (!close_rel(px->fapp[1].x, fx, std::max(1.0, std::fabs(fx)), mode >= 2 ? 1e-9 : 1e-12)) {
                     r.violation(std::string("C04:atomic-force-differs:") + c.name,
                                 det + ",\"step\":" + std::to_string(s) + ",\"force_x_atom2\":" + num(px->fapp[1].x) + ",\"expected\":" + num(fx) + "}");
